@@ -10,6 +10,7 @@ const rule = "histories: a mesh recipe (library constructors, marching-cubes lat
 
 func TestProp(t *testing.T) {
 	kit.Run(t, "C13", rule,
+		kit.Enum[firstUseCase]{Name: "C13/first-use/concurrent", N: 16, At: func(i int) firstUseCase { return firstUseCase{Index: i} }, Check: checkFirstUse, Fresh: true},
 		kit.Clause[meshCase]{Name: "C13/mesh3d/queries", Quick: 400, Thorough: 12000, Gen: genMeshCase, Check: checkMesh, Fresh: true},
 		kit.Clause[mesh2Case]{Name: "C13/mesh2d/queries", Quick: 600, Thorough: 12000, Gen: genMesh2Case, Check: checkMesh2, Fresh: true},
 		kit.Clause[derivedCase]{Name: "C13/derived3d/queries", Quick: 300, Thorough: 9000, Gen: genDerivedCase, Check: checkDerived, Fresh: true},
